@@ -17,7 +17,7 @@ ATOMS += ["a?", "a?:1", "?:1", "a:?", "a[b]:1", "a[b]:*", "[ab]*:*", "a:[12]", "
 LISTS = ["a:1 ab", "a ab:*", "zz a", "a:* a", "*:2 zz", " a  ab ", "a b-c zz", "ab a*",
          "a:2 a:1 a", "zz yy", " ", "* zz", "b-c a", "a:1.0-rc.1 ab:1", "*:1 *:2", "ab:* a",
          "a:1 a?:1", "a:? ab", "zz a[b]:*"]
-LANGS = ["~", "en", "fr", "de"]
+LANGS = ["~", "en", "fr-CA", "de"]      # (a tag with an upper-case subtag: stored and compared as given)
 REMOVES = ["a", "ab", "a:*", "*:1", "a ab:*", "zz", "*", "a:1 ab", "b-*:*", "ab a*"]
 
 
